@@ -51,6 +51,8 @@ def check_push_selection(ctx, oid="C13.1"):
     data = tm.unhex(a)
     pts = rules.compare_constants(ev, fi) | {0, 1, 75, 76, 255, 256, 65535, 65536, 2 ** 32 - 1, 2 ** 32, 2 ** 24}
     reps = rules.representatives(pts, 0, None) + [2 ** 40]
+    if ctx.thorough:
+        reps = sorted(set(reps) | set(range(0, 600)) | set(range(65500, 65600)))
     ev.assumptions = {T("startswith", (a, "OP_"), tm.BOOL): False}
     n = 0
     for L in reps:
